@@ -90,6 +90,14 @@ def build(case):
     mask = np.array([rng.random() < case["p_nan"] for _ in range(y.size)]
                     ).reshape(shape)
     y = np.where(mask, np.nan, y)
+    if case.get("p_inf"):
+        # +-inf is data (it is NOT missing): kept also when joining across
+        # the missing points
+        minf = np.array([rng.random() < case["p_inf"] for _ in range(y.size)]
+                        ).reshape(shape)
+        sign = np.array([rng.choice((-1.0, 1.0)) for _ in range(y.size)]
+                        ).reshape(shape)
+        y = np.where(minf & ~np.isnan(y), sign * np.inf, y)
     for d, idxs in case.get("dead", {}).items():
         if d in sizes:
             for i in idxs:
@@ -221,9 +229,19 @@ def check_lines(x, case, ds):
     if not np.any(np.isfinite(ds["y"].sel({d: sel[d] for d in dims}).values)):
         # the selection holds no data at all: nothing can be required
         return {"nontrivial": False, "classes": ["mode=lines", "empty"]}
+    row, col = case["map"].get("row"), case["map"].get("col")
+    user_axs = None
+    if case.get("user_axs") and (row or col) and not case.get("dead") \
+            and case["p_nan"] == 0 and "row" not in case.get("orders", {}) \
+            and "col" not in case.get("orders", {}):
+        # the caller brings a grid of axes that is wider than needed
+        import matplotlib.pyplot as plt
+        nr = len(sel[row]) if row else 1
+        nc = len(sel[col]) if col else 1
+        _, user_axs = plt.subplots(nr, nc + case["user_axs"], squeeze=False)
+        kw["axs"] = user_axs
     with under_test("infiniplot"):
         fig, axs = x.infiniplot(ds, xname, "y", show_and_close=False, **kw)
-    row, col = case["map"].get("row"), case["map"].get("col")
 
     # ---- reference: every combination of the remaining coordinates
     iter_dims = [d for d in dims if d not in agg]
@@ -256,10 +274,20 @@ def check_lines(x, case, ds):
 
     # ---- what was drawn
     drawn = []
-    for ax in axs.flat:
-        key = panel_key(ax, row, col)
-        for ln in ax.get_lines():
-            drawn.append((key, ln))
+    if user_axs is not None:
+        # panels are known by their position in the caller's grid
+        for (i_, j_), ax in np.ndenumerate(user_axs):
+            key = ((str(sel[row][i_]) if i_ < len(sel[row]) else "spare")
+                   if row else None,
+                   (str(sel[col][j_]) if j_ < len(sel[col]) else "spare")
+                   if col else None)
+            for ln in ax.get_lines():
+                drawn.append((key, ln))
+    else:
+        for ax in axs.flat:
+            key = panel_key(ax, row, col)
+            for ln in ax.get_lines():
+                drawn.append((key, ln))
     require(len(drawn) == len(expected), "line-count",
             f"{len(drawn)} lines drawn for {len(expected)} combinations of "
             f"coordinates with data")
@@ -312,7 +340,9 @@ def check_lines(x, case, ds):
                         "aggregated" if agg else "iterated",
                         "dropped-label" if dropped else "no-dropped-label",
                         "join" if case.get("join") else "gaps-kept",
-                        "x-variable" if case.get("x_is_var") else "x-coord"]}
+                        "x-variable" if case.get("x_is_var") else "x-coord",
+                        "caller-axes" if user_axs is not None
+                        else "own-axes"]}
 
 
 def _relation(matched, dims, prop, readout, sel):
@@ -590,6 +620,10 @@ def strategy(draw):
     case["palette"] = draw(st.sampled_from([None, None, "viridis"]))
     case["x_is_var"] = draw(st.sampled_from([False, False, False, True])) \
         and case["rest"] == "iterate"
+    if case["rest"] == "iterate":
+        case["p_inf"] = draw(st.sampled_from([0.0, 0.0, 0.2]))
+    case["user_axs"] = draw(st.sampled_from([0, 1, 2])) \
+        if ("row" in case["map"] or "col" in case["map"]) else 0
     return case
 
 
